@@ -457,7 +457,7 @@ class SqlImpl(TableImpl):
                 query.limit = nd.n
                 query.offset = nd.offset
             else:
-                query.limit = min(abs(query.limit - nd.offset), nd.n)
+                query.limit = max(min(query.limit - nd.offset, nd.n), 0)
                 query.offset += nd.offset
 
         elif isinstance(nd, verbs.GroupBy):
